@@ -6,7 +6,6 @@ CONSTANTS
   AliasTargets = {1,3}
   MaxNum = 3
   MaxOps = 8
-  Known = {"C20-1"}
 VIEW View
 ACTION_CONSTRAINT Emit
 CHECK_DEADLOCK FALSE
